@@ -123,6 +123,8 @@ def run(ctx):
     n = 400 if ctx.thorough() else 60
     if os.path.exists(os.path.join(core.COQ, "Props", "C11.v")):
         core.check_props(ctx, PROPS)
+        # record - run - record - build the link: the order monitor on the regenerated skeleton of in_toto_run
+        core.run_ties(ctx, "Tie/C11.v", gen_files=("Skel.v",))
     model = core.Model()
     viol, evals, nontrivial, steps_total, dist = 0, 0, 0, 0, {"two_phase": 0, "dsse": 0, "streams": 0, "changed": 0, "nocmd": 0,
                                                               "custom_recording": 0, "verify_accept": 0, "inspection": 0}
